@@ -162,13 +162,13 @@ func checkC17(r *mon.Run) {
 	}
 	minEv := int64(n * 4)
 	events := []string{"open_internal_ok_or_judged", "open_external_ok_or_judged", "open_sibling_ok_or_judged", "factory_external_judged", "factory_sibling_judged"}
-	if r.Thorough() {
-		nb := 12
-		for i := 0; i < nb; i++ {
-			c17Strace(r, rng, i)
-		}
-		events = append(events, "strace_socket_judged")
+	// real sockets under strace: a few child runs in the quick tier too, because some
+	// breaks (e.g. one option silently not requested) are invisible in conn.Config
+	nb := r.Pick(4, 16)
+	for i := 0; i < nb; i++ {
+		c17Strace(r, rng, i)
 	}
+	events = append(events, "strace_socket_judged")
 	r.Require(minEv, 12, events...)
 }
 
@@ -342,9 +342,17 @@ func c17Strace(r *mon.Run, rng *rand.Rand, idx int) {
 	w.Range = "31000-32767"
 	w.Reuse = true // the default opener follows the OS (Linux: true)
 	c17Sizes(rng, w)
-	if w.RecvBuf == 0 || w.SendBuf == 0 {
-		// a zero size means "leave the OS default": no setsockopt to observe for it
-		w.RecvBuf, w.SendBuf = 3000+rng.IntN(100000), 200000+rng.IntN(100000)
+	// a zero size means "leave the OS default": no setsockopt to observe for it,
+	// but the other, configured, size must still be requested
+	switch idx % 4 {
+	case 1:
+		w.RecvBuf, w.SendBuf = 3000+rng.IntN(100000), 0
+	case 2:
+		w.RecvBuf, w.SendBuf = 0, 200000+rng.IntN(100000)
+	default:
+		if w.RecvBuf == 0 || w.SendBuf == 0 {
+			w.RecvBuf, w.SendBuf = 3000+rng.IntN(100000), 200000+rng.IntN(100000)
+		}
 	}
 	cc := &c17ChildCfg{Cfg: w, Base: 40000 + rng.IntN(20000)}
 	js, _ := json.Marshal(cc)
@@ -472,14 +480,26 @@ func c17Strace(r *mon.Run, rng *rand.Rand, idx int) {
 		r.Event("strace_socket_judged")
 		r.Class(fmt.Sprintf("strace/%s/%s/%s", w.Order, kind, sizesShape(w)))
 		wit := c17W{Local: t.bind, Remote: t.conn, Trace: strings.Join(t.lines, "\n")}
-		if len(t.rcv) == 0 || len(t.snd) == 0 {
+		if (len(t.rcv) == 0 && w.RecvBuf != 0) || (len(t.snd) == 0 && w.SendBuf != 0) {
 			r.Eval(1)
 			wit.Cfg, wit.Where, wit.WantRecv, wit.WantSend = w, "strace", w.RecvBuf, w.SendBuf
 			r.Violation("C17:missing:"+kind, fmt.Sprintf("no SO_RCVBUF/SO_SNDBUF request seen on the %s socket although receive=%d send=%d are configured", kind, w.RecvBuf, w.SendBuf), wit)
 			continue
 		}
 		// every request on the socket must carry the configured value
-		gr, gs := t.rcv[len(t.rcv)-1], t.snd[len(t.snd)-1]
+		gr, gs := w.RecvBuf, w.SendBuf // a size of 0 is not requested and not judged
+		if len(t.rcv) > 0 && w.RecvBuf != 0 {
+			gr = t.rcv[len(t.rcv)-1]
+		}
+		if len(t.snd) > 0 && w.SendBuf != 0 {
+			gs = t.snd[len(t.snd)-1]
+		}
+		if w.RecvBuf == 0 {
+			t.rcv = nil
+		}
+		if w.SendBuf == 0 {
+			t.snd = nil
+		}
 		for _, v := range t.rcv {
 			if v != w.RecvBuf {
 				gr = v
